@@ -85,6 +85,8 @@ def build(d):
         alt = build_alt(cls, args)
         if alt is not None:
             return alt
+    if isinstance(d.get("via"), dict):
+        return build_route(cls, args, d["via"])
     if cls == "LaneletNetwork":
         extra = {k: args.pop(k, []) for k in ("lanelets", "intersections", "traffic_signs", "traffic_lights", "areas")}
         net = R[cls](**args)
@@ -165,6 +167,107 @@ def build_alt(cls, args):
             setattr(st, k, v)
         return st
     return None
+
+
+def build_route(cls, args, via):
+    """Assemble a Scenario / LaneletNetwork through another sequence of public calls than `build` uses.  `via`:
+      "elements": "network" (add_objects(LaneletNetwork), as build does) | "single" (every lanelet / sign / light / intersection
+                  through scenario.add_objects(element)) | "member" (through scenario.lanelet_network.add_*)      [Scenario]
+      "order":    seed of the shuffle of the road elements (dict-compared; obstacle order is kept: the obstacle lists are
+                  compared in insertion order)
+      "extras":   [{"desc": element description with a fresh id, "add": "scenario" | "network", "remove": "scenario" | "network"}]
+                  an extra element that is added and removed again before the comparison
+      "cleanup":  call lanelet_network.cleanup_lanelet_references() at the end (what remove_lanelet does as a side effect)"""
+    import random
+    R = registry()
+    rr = random.Random(via.get("order", 0))
+
+    def shuffled(l):
+        l = list(l)
+        if "order" in via:
+            rr.shuffle(l)
+        return l
+
+    def add_net_elements(net, e, sc=None, how="member"):
+        for l in shuffled(e["lanelets"]):
+            sc.add_objects(l) if how == "single" else net.add_lanelet(l)
+        for t in shuffled(e["traffic_signs"]):
+            sc.add_objects(t, set()) if how == "single" else net.add_traffic_sign(t, set())
+        for t in shuffled(e["traffic_lights"]):
+            sc.add_objects(t, set()) if how == "single" else net.add_traffic_light(t, set())
+        for a in shuffled(e["areas"]):
+            net.add_area(a, set())
+        for i in shuffled(e["intersections"]):
+            sc.add_objects(i) if how == "single" else net.add_intersection(i)
+
+    def extras(net, sc):
+        for ex in via.get("extras", []):
+            o = build(ex["desc"])
+            kind = ex["desc"]["cls"]
+            through_sc = sc is not None and ex["add"] == "scenario"
+            if kind == "Lanelet":
+                sc.add_objects(o) if through_sc else net.add_lanelet(o)
+            elif kind == "TrafficSign":
+                sc.add_objects(o, set()) if through_sc else net.add_traffic_sign(o, set())
+            elif kind == "TrafficLight":
+                sc.add_objects(o, set()) if through_sc else net.add_traffic_light(o, set())
+            elif kind == "Intersection":
+                sc.add_objects(o) if through_sc else net.add_intersection(o)
+            elif kind == "Area":
+                net.add_area(o, set())
+            else:
+                sc.add_objects(o)
+        for ex in via.get("extras", []):
+            kind = ex["desc"]["cls"]
+            through_sc = sc is not None and ex["remove"] == "scenario"
+            a = ex["desc"]["args"]
+            if kind == "Lanelet":
+                sc.remove_lanelet(net.find_lanelet_by_id(a["lanelet_id"])) if through_sc else net.remove_lanelet(a["lanelet_id"])
+            elif kind == "TrafficSign":
+                sc.remove_traffic_sign(net.find_traffic_sign_by_id(a["traffic_sign_id"])) if through_sc \
+                    else net.remove_traffic_sign(a["traffic_sign_id"])
+            elif kind == "TrafficLight":
+                sc.remove_traffic_light(net.find_traffic_light_by_id(a["traffic_light_id"])) if through_sc \
+                    else net.remove_traffic_light(a["traffic_light_id"])
+            elif kind == "Intersection":
+                sc.remove_intersection(net.find_intersection_by_id(a["intersection_id"])) if through_sc \
+                    else net.remove_intersection(a["intersection_id"])
+            elif kind == "Area":
+                net.remove_area(a["area_id"])
+            else:
+                sc.remove_obstacle(sc.obstacle_by_id(a["obstacle_id"]))
+
+    if cls == "LaneletNetwork":
+        e = {k: args.pop(k, []) for k in ("lanelets", "intersections", "traffic_signs", "traffic_lights", "areas")}
+        net = R[cls](**args)
+        add_net_elements(net, e)
+        extras(net, None)
+        if via.get("cleanup"):
+            net.cleanup_lanelet_references()
+        return net
+    if cls == "Scenario":
+        extra = {k: args.pop(k, _SENTINEL) for k in ("lanelet_network", "static_obstacles", "dynamic_obstacles",
+                                                     "environment_obstacle", "phantom_obstacle")}
+        sc = R[cls](**args)
+        how = via.get("elements", "network")
+        if extra["lanelet_network"] is not _SENTINEL:
+            src = extra["lanelet_network"]
+            if how == "network":
+                sc.add_objects(src)
+            else:
+                sc.lanelet_network.information = src.information
+                e = {"lanelets": src.lanelets, "traffic_signs": src.traffic_signs, "traffic_lights": src.traffic_lights,
+                     "areas": src.areas, "intersections": src.intersections}
+                add_net_elements(sc.lanelet_network, e, sc, how)
+        for k in ("static_obstacles", "dynamic_obstacles", "environment_obstacle", "phantom_obstacle"):
+            if extra[k] is not _SENTINEL:
+                for o in extra[k]:
+                    sc.add_objects(o)
+        extras(sc.lanelet_network, sc)
+        if via.get("cleanup"):
+            sc.lanelet_network.cleanup_lanelet_references()
+        return sc
+    raise ValueError(f"no construction routes for {cls}")
 
 
 # ------------------------------------------------------------------------------------------------ types
